@@ -16,6 +16,14 @@ package uses these methods on); none changes which object is mutated or aliased:
   np.zeros((n,)) / ones / empty  -> np.zeros(n)
   np.transpose(X), X.transpose() -> X.T
   np.multiply/add/subtract/divide/power(a, b) -> a * b, a + b, a - b, a / b, a ** b
+  a > b, a >= b                  -> b < a, b <= a            (single comparisons; operand evaluation has no side effects here)
+  0 == x, np.inf != x            -> x == 0, x != np.inf
+  dtype='float' / astype('int')  -> dtype=float / astype(int);  X.astype(T) -> np.array(X, dtype=T)   (both copy)
+  np.logical_not(a == b)         -> a != b (and vice versa)
+  ~m, a & b, a * b, a | b, m &= c -> np.logical_not / logical_and / logical_or when the operands evidently hold booleans
+  X[np.where(mask)]              -> X[mask];   S[V] = False -> S[V] = 0 for an evidently boolean S
+  np.tile(<literal>, shape)      -> np.full(shape, <literal>);  np.eye(n, dtype=bool) -> 0 < np.eye(n);  np.arange(0, n) -> np.arange(n)
+  np.repeat(np.atleast_2d(np.arange(..)), N, 0) -> np.tile(np.arange(..), (N, 1));  np.triu_indices(n, k) -> np.where(np.triu(np.ones((n, n)), k))
 """
 import ast
 
@@ -33,15 +41,98 @@ def numpy_alias(tree):
     return None
 
 
+def _is_literal(e):
+    if isinstance(e, ast.Constant):
+        return True
+    if isinstance(e, ast.UnaryOp) and isinstance(e.op, ast.USub) and isinstance(e.operand, ast.Constant):
+        return True
+    return isinstance(e, ast.Attribute) and e.attr in ('inf', 'nan') and isinstance(e.value, ast.Name)
+
+
 def _root(e):
+    if isinstance(e, (ast.BinOp, ast.UnaryOp, ast.Compare)):
+        return '<expr>'           # a parenthesised arithmetic / comparison expression: an array, never a module
     while isinstance(e, (ast.Attribute, ast.Subscript, ast.Call)):
         e = e.func if isinstance(e, ast.Call) else e.value
     return e.id if isinstance(e, ast.Name) else None
 
 
+_BOOLFUN = {'isnan', 'isinf', 'isfinite', 'logical_not', 'logical_and', 'logical_or', 'logical_xor', 'isclose', 'isin', 'in1d'}
+
+
 class _Spell(ast.NodeTransformer):
     def __init__(self, np_alias):
         self.np = np_alias
+        self.boolnames = set()
+
+    # -- which names evidently hold booleans (arrays or scalars) inside the current function
+    def _is_bool(self, e):
+        if isinstance(e, ast.Compare):
+            return True
+        if isinstance(e, ast.Constant) and isinstance(e.value, bool):
+            return True
+        if isinstance(e, ast.Name):
+            return e.id in self.boolnames
+        if isinstance(e, ast.UnaryOp) and isinstance(e.op, (ast.Invert, ast.Not)):
+            return isinstance(e.op, ast.Not) or self._is_bool(e.operand)
+        if isinstance(e, ast.BinOp) and isinstance(e.op, (ast.BitAnd, ast.BitOr, ast.BitXor, ast.Mult)):
+            return self._is_bool(e.left) and self._is_bool(e.right)
+        if isinstance(e, ast.Subscript):
+            return self._is_bool(e.value)
+        if isinstance(e, ast.Attribute) and e.attr == 'T':
+            return self._is_bool(e.value)
+        if isinstance(e, ast.Call):
+            f = e.func
+            if self._is_np(f) and f.attr in _BOOLFUN:
+                return True
+            if self._is_np(f) and f.attr in ('ones', 'zeros', 'eye', 'empty', 'array', 'full', 'ones_like', 'zeros_like', 'asarray'):
+                return any(k.arg == 'dtype' and isinstance(k.value, ast.Name) and k.value.id == 'bool' for k in e.keywords)
+            if isinstance(f, ast.Attribute) and f.attr == 'copy' and not e.args:
+                return self._is_bool(f.value)
+            if isinstance(f, ast.Attribute) and f.attr == 'astype' and len(e.args) == 1 and isinstance(e.args[0], ast.Name) and e.args[0].id == 'bool':
+                return True
+        return False
+
+    def _infer_bool(self, fn):
+        defs = {}
+        for x in ast.walk(fn):
+            if isinstance(x, ast.Assign):
+                for t in x.targets:
+                    if isinstance(t, ast.Name):
+                        defs.setdefault(t.id, []).append(x.value)
+                    elif isinstance(t, (ast.Tuple, ast.List)):
+                        for e in t.elts:
+                            if isinstance(e, ast.Name):
+                                defs.setdefault(e.id, []).append(None)
+            elif isinstance(x, ast.AugAssign) and isinstance(x.target, ast.Name):
+                defs.setdefault(x.target.id, []).append(x.value if isinstance(x.op, (ast.BitAnd, ast.BitOr)) else None)
+            elif isinstance(x, (ast.For, ast.AsyncFor)):
+                for e in ast.walk(x.target):
+                    if isinstance(e, ast.Name):
+                        defs.setdefault(e.id, []).append(None)
+            elif isinstance(x, ast.arg):
+                defs.setdefault(x.arg, []).append(None)
+        names = set()
+        for _ in range(3):
+            self.boolnames = names
+            new = {k for k, vs in defs.items() if vs and all(v is not None and self._is_bool(v) for v in vs)}
+            if new == names:
+                break
+            names = new
+        self.boolnames = names
+
+    def visit_FunctionDef(self, n):
+        saved = self.boolnames
+        self._infer_bool(n)
+        self.generic_visit(n)
+        self.boolnames = saved
+        return n
+
+    def visit_UnaryOp(self, n):
+        self.generic_visit(n)
+        if isinstance(n.op, ast.Invert) and self._is_bool(n.operand):
+            return self.visit_Call(ast.copy_location(ast.Call(func=self._npattr('logical_not'), args=[n.operand], keywords=[]), n))
+        return n
 
     def _npattr(self, name):
         return ast.Attribute(value=ast.Name(id=self.np, ctx=ast.Load()), attr=name, ctx=ast.Load())
@@ -53,6 +144,17 @@ class _Spell(ast.NodeTransformer):
         self.generic_visit(n)
         if isinstance(n.op, ast.MatMult):
             return ast.copy_location(ast.Call(func=self._npattr('dot'), args=[n.left, n.right], keywords=[]), n)
+        if isinstance(n.op, (ast.BitAnd, ast.BitOr, ast.Mult)) and self._is_bool(n.left) and self._is_bool(n.right):
+            fn = 'logical_or' if isinstance(n.op, ast.BitOr) else 'logical_and'     # bool * bool is the conjunction
+            return ast.copy_location(ast.Call(func=self._npattr(fn), args=[n.left, n.right], keywords=[]), n)
+        return n
+
+    def visit_AugAssign(self, n):
+        self.generic_visit(n)
+        if isinstance(n.op, (ast.BitAnd, ast.BitOr)) and isinstance(n.target, ast.Name) and self._is_bool(n.target) and self._is_bool(n.value):
+            fn = 'logical_and' if isinstance(n.op, ast.BitAnd) else 'logical_or'
+            return ast.copy_location(ast.Assign(targets=[ast.Name(id=n.target.id, ctx=ast.Store())], value=ast.Call(
+                func=self._npattr(fn), args=[ast.Name(id=n.target.id, ctx=ast.Load()), n.value], keywords=[])), n)
         return n
 
     def visit_Call(self, n):
@@ -73,9 +175,42 @@ class _Spell(ast.NodeTransformer):
             r = _root(f.value)
             if r is not None and r not in _NOT_ARRAYS:
                 return ast.copy_location(ast.Attribute(value=f.value, attr='T', ctx=ast.Load()), n)
+        if isinstance(f, ast.Attribute) and f.attr == 'astype' and len(n.args) == 1 and isinstance(n.args[0], ast.Constant) \
+                and n.args[0].value in ('int', 'float', 'bool'):
+            n.args = [ast.copy_location(ast.Name(id=n.args[0].value, ctx=ast.Load()), n.args[0])]
+        if isinstance(f, ast.Attribute) and not self._is_np(f) and f.attr == 'astype' and len(n.args) == 1 and not n.keywords and not star:
+            r = _root(f.value)
+            if r is not None and r not in _NOT_ARRAYS:
+                return ast.copy_location(ast.Call(func=self._npattr('array'), args=[f.value], keywords=[ast.keyword(arg='dtype', value=n.args[0])]), n)
         if not self._is_np(f):
             return n
         a = f.attr
+        if a == 'logical_not' and len(n.args) == 1 and not n.keywords and isinstance(n.args[0], ast.Compare) and len(n.args[0].ops) == 1 \
+                and isinstance(n.args[0].ops[0], (ast.Eq, ast.NotEq)):
+            c = n.args[0]
+            op = ast.NotEq() if isinstance(c.ops[0], ast.Eq) else ast.Eq()
+            return ast.copy_location(ast.Compare(left=c.left, ops=[op], comparators=c.comparators), n)
+        if a == 'tile' and len(n.args) == 2 and not n.keywords and _is_literal(n.args[0]):
+            n = ast.copy_location(ast.Call(func=self._npattr('full'), args=[n.args[1], n.args[0]], keywords=[]), n)
+            a = 'full'
+        if a == 'full' and n.args and isinstance(n.args[0], ast.Tuple) and len(n.args[0].elts) == 1 and not isinstance(n.args[0].elts[0], ast.Starred):
+            n.args = [n.args[0].elts[0]] + list(n.args[1:])
+        if a == 'eye' and len(n.args) == 1 and len(n.keywords) == 1 and n.keywords[0].arg == 'dtype' and isinstance(n.keywords[0].value, ast.Name) \
+                and n.keywords[0].value.id == 'bool':
+            return ast.copy_location(ast.Compare(left=ast.Constant(value=0), ops=[ast.Lt()], comparators=[
+                ast.Call(func=self._npattr('eye'), args=n.args, keywords=[])]), n)
+        if a == 'arange' and len(n.args) == 2 and not n.keywords and isinstance(n.args[0], ast.Constant) and n.args[0].value == 0 \
+                and type(n.args[0].value) is int:
+            n.args = [n.args[1]]
+        if a == 'repeat' and not star and len(n.args) == 3 and not n.keywords and isinstance(n.args[2], ast.Constant) and n.args[2].value == 0 \
+                and isinstance(n.args[0], ast.Call) and self._is_np(n.args[0].func, 'atleast_2d') and len(n.args[0].args) == 1 \
+                and isinstance(n.args[0].args[0], ast.Call) and self._is_np(n.args[0].args[0].func, 'arange'):
+            return ast.copy_location(ast.Call(func=self._npattr('tile'), args=[n.args[0].args[0], ast.Tuple(elts=[n.args[1], ast.Constant(value=1)], ctx=ast.Load())],
+                                              keywords=[]), n)
+        if a == 'triu_indices' and len(n.args) == 2 and not n.keywords:
+            ones = ast.Call(func=self._npattr('ones'), args=[ast.Tuple(elts=[n.args[0], n.args[0]], ctx=ast.Load())], keywords=[])
+            tri = ast.Call(func=self._npattr('triu'), args=[ones, n.args[1]], keywords=[])
+            return ast.copy_location(ast.Call(func=self._npattr('where'), args=[tri], keywords=[]), n)
         if a in REDUCERS and len(n.args) == 2 and not star and not any(k.arg == 'axis' for k in n.keywords):
             n.keywords = [ast.keyword(arg='axis', value=n.args[1])] + list(n.keywords)
             n.args = [n.args[0]]
@@ -99,6 +234,9 @@ class _Spell(ast.NodeTransformer):
 
     def visit_Subscript(self, n):
         self.generic_visit(n)
+        if isinstance(n.slice, ast.Call) and self._is_np(n.slice.func, 'where') and len(n.slice.args) == 1 and not n.slice.keywords \
+                and self._is_bool(n.slice.args[0]):
+            n.slice = n.slice.args[0]           # X[np.where(mask)] is X[mask], for loads and stores alike
         if isinstance(n.ctx, ast.Load) and isinstance(n.slice, ast.Constant) and n.slice.value == 0 and type(n.slice.value) is int:
             v = n.value
             if isinstance(v, ast.Attribute) and v.attr == 'shape':
@@ -109,8 +247,29 @@ class _Spell(ast.NodeTransformer):
                 return ast.copy_location(ast.Call(func=ast.Name(id='len', ctx=ast.Load()), args=[v.args[0]], keywords=[]), n)
         return n
 
+    def visit_Compare(self, n):
+        self.generic_visit(n)
+        if len(n.ops) == 1:
+            op, l, r = n.ops[0], n.left, n.comparators[0]
+            if isinstance(op, ast.Gt):
+                return ast.copy_location(ast.Compare(left=r, ops=[ast.Lt()], comparators=[l]), n)
+            if isinstance(op, ast.GtE):
+                return ast.copy_location(ast.Compare(left=r, ops=[ast.LtE()], comparators=[l]), n)
+            if isinstance(op, (ast.Eq, ast.NotEq)) and _is_literal(l) and not _is_literal(r):
+                return ast.copy_location(ast.Compare(left=r, ops=[op], comparators=[l]), n)
+        return n
+
+    def visit_keyword(self, n):
+        self.generic_visit(n)
+        if n.arg == 'dtype' and isinstance(n.value, ast.Constant) and n.value.value in ('int', 'float', 'bool'):
+            n.value = ast.copy_location(ast.Name(id=n.value.value, ctx=ast.Load()), n.value)
+        return n
+
     def visit_Assign(self, n):
         self.generic_visit(n)
+        if isinstance(n.value, ast.Constant) and isinstance(n.value.value, bool) and all(
+                isinstance(t, ast.Subscript) and self._is_bool(t.value) for t in n.targets):
+            n.value = ast.copy_location(ast.Constant(value=int(n.value.value)), n.value)     # S[V] = False  ==  S[V] = 0 for a boolean array S
         if len(n.targets) == 1 and isinstance(n.targets[0], ast.Subscript) and isinstance(n.value, ast.BinOp) \
                 and isinstance(n.value.op, (ast.Add, ast.Sub, ast.Mult)):
             t = ast.unparse(n.targets[0])
@@ -121,11 +280,95 @@ class _Spell(ast.NodeTransformer):
         return n
 
 
+def _names(e):
+    return {n.id for n in ast.walk(e) if isinstance(n, ast.Name)}
+
+
+def _negate(test):
+    if isinstance(test, ast.UnaryOp) and isinstance(test.op, ast.Not):
+        return test.operand
+    return ast.copy_location(ast.UnaryOp(op=ast.Not(), operand=test), test)
+
+
+class _Struct(ast.NodeTransformer):
+    """statement-level normal forms:
+      * guard clauses: in a loop body `if c: X; continue` followed by REST becomes `if c: X else: REST`
+        (`if c: continue` + REST -> `if not c: REST`); in a function body `if c: X; return v` + REST -> `if c: X; return v else: REST`;
+      * `a, b = x, y` with plain names on the left that do not occur on the right -> `a = x; b = y`;
+      * `a = b = <literal>` -> `a = <literal>; b = <literal>`;
+      * `if not c: A else: B` / `if x is not y: A else: B` / `if a != b: A else: B` -> positive test first with the arms exchanged."""
+
+    def _split(self, stmts):
+        out = []
+        for st in stmts:
+            if isinstance(st, ast.Assign) and len(st.targets) == 1 and isinstance(st.targets[0], ast.Tuple) and isinstance(st.value, ast.Tuple) \
+                    and len(st.targets[0].elts) == len(st.value.elts) and all(isinstance(t, ast.Name) for t in st.targets[0].elts) \
+                    and not any(isinstance(v, ast.Starred) for v in st.value.elts) \
+                    and not ({t.id for t in st.targets[0].elts} & _names(st.value)):
+                for t, v in zip(st.targets[0].elts, st.value.elts):
+                    out.append(ast.copy_location(ast.Assign(targets=[t], value=v), st))
+            elif isinstance(st, ast.Assign) and len(st.targets) > 1 and all(isinstance(t, ast.Name) for t in st.targets) and _is_literal(st.value):
+                for t in st.targets:
+                    out.append(ast.copy_location(ast.Assign(targets=[t], value=st.value), st))
+            else:
+                out.append(st)
+        return out
+
+    def _guards(self, stmts, kind):
+        """kind: 'loop' (continue) or 'func' (return)"""
+        stmts = self._split(stmts)
+        for i, st in enumerate(stmts):
+            if isinstance(st, ast.If) and not st.orelse and st.body and i + 1 < len(stmts):
+                last = st.body[-1]
+                if kind == 'loop' and isinstance(last, ast.Continue):
+                    rest = self._guards(stmts[i + 1:], kind)
+                    if len(st.body) == 1:
+                        new = ast.copy_location(ast.If(test=_negate(st.test), body=rest, orelse=[]), st)
+                    else:
+                        new = ast.copy_location(ast.If(test=st.test, body=st.body[:-1], orelse=rest), st)
+                    return stmts[:i] + [new]
+                if kind == 'func' and isinstance(last, ast.Return):
+                    rest = self._guards(stmts[i + 1:], kind)
+                    new = ast.copy_location(ast.If(test=st.test, body=st.body, orelse=rest), st)
+                    return stmts[:i] + [new]
+        return stmts
+
+    def visit_If(self, node):
+        self.generic_visit(node)
+        # two-armed conditionals are written with the positive test first: `if not c: A else: B` -> `if c: B else: A`
+        if node.body and node.orelse and not (len(node.orelse) == 1 and isinstance(node.orelse[0], ast.If)):
+            t = node.test
+            flipped = None
+            if isinstance(t, ast.UnaryOp) and isinstance(t.op, ast.Not):
+                flipped = t.operand
+            elif isinstance(t, ast.Compare) and len(t.ops) == 1 and isinstance(t.ops[0], (ast.IsNot, ast.NotEq, ast.NotIn)):
+                op = {ast.IsNot: ast.Is, ast.NotEq: ast.Eq, ast.NotIn: ast.In}[type(t.ops[0])]()
+                flipped = ast.copy_location(ast.Compare(left=t.left, ops=[op], comparators=t.comparators), t)
+            if flipped is not None:
+                node.test = flipped
+                node.body, node.orelse = node.orelse, node.body
+        return node
+
+    def generic_visit(self, node):
+        super().generic_visit(node)
+        for field in ('body', 'orelse', 'finalbody'):
+            blk = getattr(node, field, None)
+            if isinstance(blk, list) and blk and all(isinstance(x, ast.stmt) for x in blk):
+                if field == 'body' and isinstance(node, (ast.For, ast.While, ast.AsyncFor)):
+                    setattr(node, field, self._guards(blk, 'loop'))
+                elif field == 'body' and isinstance(node, (ast.FunctionDef, ast.AsyncFunctionDef)):
+                    setattr(node, field, self._guards(blk, 'func'))
+                else:
+                    setattr(node, field, self._split(blk))
+        return node
+
+
 def canonical(tree, np_alias='np'):
     """canonical spelling of a parsed module / statement list / expression (in place; returns the tree)"""
-    if np_alias is None:
-        return tree
-    return ast.fix_missing_locations(_Spell(np_alias).visit(tree))
+    if np_alias is not None:
+        tree = _Spell(np_alias).visit(tree)
+    tree = _Struct().visit(tree)
+    return ast.fix_missing_locations(tree)
 
 
 def parse(src, mode='exec', np_alias='np'):
